@@ -34,7 +34,7 @@ RULE = (
 )
 ASSUMPTIONS = ["integer-like dict keys are excluded (confectioner treats '0' as a list index)"]
 FLOORS = {"option_cases": (15000, 60000), "present_falsy": (3000, 12000), "absent_default": (2500, 2500),
-          "domain_decided": (500, 1500), "namespace_member_checks": (1500, 30000), "set_cases": (1500, 30000)}
+          "domain_decided": (500, 1500), "option_history_steps": (5000, 20000), "namespace_member_checks": (1500, 30000), "set_cases": (1500, 30000)}
 SHARDS_QUICK = 4
 
 KEYS = ["A", "S", "S.X", "S.Y", "T.X", "L", "L.0", "L.1", "L.2", "S.X.Z"]
@@ -130,6 +130,51 @@ def option_case(ctx, key, dk, dv, dom, o, note):
         ctx.sample({"option": spec, "options": o, "outcome": short(got, 100)}, limit=3)
 
 
+def option_history(ctx, key, dk, dv, dom, r):
+    """One long-lived Option object evaluated / validated over a history of dictionaries (a result must never
+    depend on what the same object was asked before)."""
+    spec = {"k": "opt", "key": key, "n": 1}
+    if dk != "none":
+        spec["dk"], spec["dv"] = dk, dv
+    if dom:
+        spec["dom"] = dom
+    program = {"datasets": DATASETS, "root": spec}
+    G = build(program)
+    hist = []
+    for _ in range(6):
+        o = copy.deepcopy(r.choice(BASES))
+        if r.random() < 0.6:
+            o = place(o, key, r.choice(STORED))
+        if r.random() < 0.5:
+            o["C"] = r.choice([[0, 1, "a"], [7, 8], ["dflt", 0, None, ""], "c", [None, False, ""]])
+        elif r.random() < 0.5:
+            o.pop("C", None)
+        hist.append(o)
+    for step, o in enumerate(hist):
+        try:
+            exp = Ref(program).run(o)
+        except RecursionError:
+            continue
+        op = r.choice(["evaluate", "evaluate", "validate"])
+        with labrea.cache.disabled():
+            got = observe(getattr(G.root, op), copy.deepcopy(o))
+        ctx.evaluations += 1
+        ctx.count("option_history_steps")
+        raw = U.lookup(key, o)
+        if op == "validate":
+            if raw is U.ABSENT:
+                continue  # validate does not apply the domain to defaults
+            same = (got[0] == "ok") == (exp[0] == "ok")
+        else:
+            same = got[0] == exp[0] and got[1] == exp[1]
+        if not same:
+            W = {"program": program, "history": hist[: step + 1], "options": o, "op": op, "real": repr(got), "ref": repr(exp)}
+            W["mechanism"] = mechanism(key, o, got, program)
+            ctx.violation("option-history-dependence", f"step {step} {op}() of one long-lived Option({key!r}, default={dk}:{dv!r}, domain={dom}) on {short(o)}: "
+                          f"{short(got)} but the independent lookup gives {short(exp)}", W)
+            return
+
+
 def ref_candidates(program, o):
     from ..ref import RefErr
 
@@ -198,6 +243,8 @@ def exhaustive(ctx):
             head = key.split(".")[0]
             empty = [] if head == "L" else {}
             option_case(ctx, key, dk, dv, dom, {**copy.deepcopy(BASES[1]), head: empty}, "empty-prefix")
+        for _ in range(2 if ctx.quick else 8):
+            option_history(ctx, key, dk, dv, dom, r)
 
 
 def scalar_sections(ctx):
